@@ -15,8 +15,7 @@
     * the traversal of ANY adjacency list: its internal `expect("chain head")` and `atoms` lookups are
       unreachable and the loop terminates (the model's fuel is never exhausted) — the only panic the
       traversal can reach is the exhausted ring-number pool (`walk_only_panics_on_rnum`, D17 below).
-  Not yet theorems (covered by the correspondence harness running the real code under catch_unwind):
-    * Trace on reader events;
+    * the trace never panics on the reader's calls (C15 `trace_no_panic`).
   Known findings (not provable because false): more than 99 simultaneously open ring closures
   (`expect("rnum")`, D17) and stack exhaustion on deeply nested parentheses (D18).
 -/
